@@ -5,6 +5,7 @@ import (
 	"sort"
 
 	cmn "github.com/kardiachain/go-kardia/lib/common"
+	"github.com/kardiachain/go-kardia/types"
 )
 
 var verifV *VerifV
@@ -13,12 +14,26 @@ var verifV *VerifV
 type verifKeccak struct{ buf []byte }
 
 func (k *verifKeccak) Write(p []byte) (int, error) { k.buf = append(k.buf, p...); return len(p), nil }
-func (k *verifKeccak) Sum(b []byte) []byte          { return append(b, verifV.UF("keccak256", true, 32, k.buf)...) }
+func (k *verifKeccak) Sum(b []byte) []byte          { return append(b, verifHash(k.buf)...) }
 func (k *verifKeccak) Reset()                       { k.buf = nil }
 func (k *verifKeccak) Size() int                    { return 32 }
 func (k *verifKeccak) BlockSize() int               { return 136 }
 func (k *verifKeccak) Read(out []byte) (int, error) {
-	return copy(out, verifV.UF("keccak256", true, 32, k.buf)), nil
+	return copy(out, verifHash(k.buf)), nil
+}
+
+// the hash of a node encoding is neither the zero hash (the code's "no node / deleted" marker)
+// nor the empty-root constant: with a real Keccak either would be a preimage found by accident
+func verifHash(data []byte) []byte {
+	out := verifV.UF("keccak256", true, 32, data)
+	var z, e byte
+	for i, b := range out {
+		z |= b
+		e |= b ^ types.EmptyRootHash[i]
+	}
+	verifV.Assume(z != 0)
+	verifV.Assume(e != 0)
+	return out
 }
 
 // Stub for sha3.NewLegacyKeccak256.
@@ -137,4 +152,93 @@ func verifLessBytes(a, b []byte) bool {
 		}
 	}
 	return len(a) < len(b)
+}
+
+// ---- T2: commit, reopen from the node store, continue ------------------------------------------
+
+// node store: hash -> blob, filled from the node sets returned by Commit
+type verifNodeStore struct{ nodes map[cmn.Hash][]byte }
+
+func (s *verifNodeStore) Reader(cmn.Hash) Reader { return s }
+func (s *verifNodeStore) Node(_ cmn.Hash, _ []byte, h cmn.Hash) ([]byte, error) {
+	return s.nodes[h], nil
+}
+
+// VerifC07_T2: a trie is built (N1 updates), committed, reopened by root from the committed nodes
+// (children are then unloaded hash references), modified again (N2 updates/deletes), optionally
+// committed and reopened a second time: every key still reads the last value written and the
+// root is the canonical root of the content (fresh in-memory trie).
+func VerifC07_T2(v *VerifV) {
+	verifV = v
+	NK, N1, N2 := v.Param("NK"), v.Param("N1"), v.Param("N2")
+	lens := []int{0, 1, 33}
+	store := &verifNodeStore{nodes: map[cmn.Hash][]byte{}}
+	t := verifNewTrie()
+	ref := make([][]byte, NK)
+	apply := func() {
+		k := v.Choice("key", NK)
+		vl := lens[v.Choice("value-len", len(lens))]
+		val := v.Bytes("value", vl)
+		if vl > 0 {
+			v.Assume(val[0] != 0 || vl > 1)
+			v.Assert(t.Update(verifKeys[k], val) == nil, "C07.update-error")
+			ref[k] = val
+		} else {
+			v.Assert(t.Delete(verifKeys[k]) == nil, "C07.update-error")
+			ref[k] = nil
+			v.Cover("delete")
+		}
+	}
+	reopen := func() {
+		root, set := t.Commit(false)
+		if set != nil {
+			for _, n := range set.Nodes {
+				if n.Blob != nil {
+					store.nodes[n.Hash] = n.Blob
+				}
+			}
+		}
+		nt, err := New(TrieID(root), store)
+		v.Assert(err == nil && nt != nil, "C07.reopen.cannot-open-committed-root")
+		if nt == nil {
+			return
+		}
+		t = nt
+		v.Cover("reopened")
+	}
+	for i := 0; i < N1; i++ {
+		apply()
+	}
+	reopen()
+	for i := 0; i < N2; i++ {
+		apply()
+	}
+	if v.Bool("reopen-again") {
+		reopen()
+	}
+	live := 0
+	for k := 0; k < NK; k++ {
+		got, err := t.Get(verifKeys[k])
+		v.Assert(err == nil, "C07.get-error")
+		v.Assert(len(got) == len(ref[k]), "C07.get.not-last-value-written")
+		if len(got) == len(ref[k]) {
+			for x := range got {
+				v.Assert(got[x] == ref[k][x], "C07.get.not-last-value-written")
+			}
+		}
+		if ref[k] != nil {
+			live++
+		}
+	}
+	root := t.Hash()
+	fresh := verifNewTrie()
+	for k := NK - 1; k >= 0; k-- {
+		if ref[k] != nil {
+			_ = fresh.Update(verifKeys[k], ref[k])
+		}
+	}
+	v.Assert(root == fresh.Hash(), "C07.root.depends-on-history")
+	if live >= 2 {
+		v.Cover("branching")
+	}
 }
